@@ -48,7 +48,7 @@ CHECKS = {
             'fresh interpreters under other hash seeds); CacheHistoryTrace recomputes each call on the map and checks '
             'C06_NoRunOnHit / LoadReturnsStored / MetaPreserved / CachedAfterRun against what was returned and observable.', '6 (C06)'),
     'C07': ('TaskValues: TLC checks Deser(Ser(v)) = v (hence key injectivity), idempotent normalisation and type-distinguishing keys '
-            'over the whole bounded grammar (raw trees x 4 task types incl. same-named / prefix-named / subclass types, reserved dict keys) '
+            'over the whole bounded grammar (raw trees x 8 task types incl. same-named / prefix-named / subclass / multi-parameter / inheriting types, reserved dict keys, enum members as dict keys, an enum class nested in another class) '
             'and emits every case; the real code computes each case\'s cache_key (also after pickling, rebuilding, reconstruction, and in '
             'fresh interpreters under other hash seeds); TaskValuesObs checks C07_Deterministic / C07_Distinct (pairwise) / C07_StorageAccepts.', '6 (C07)'),
     'C08': ('Same machinery, formulas C08_RunExecutesWhatItNeeds / MapEvolution / EntryValues / NothingElseStored (and C09_Listing): '
